@@ -890,7 +890,15 @@ func (r *c04Renderer) pattern(it *c04Item, allowRest bool, last bool, hasDefault
 		r.w("{k:" + n + "}")
 	case 4:
 		if allowRest && last && !hasDefault {
-			r.w("..." + n)
+			// a rest element, plain or destructured (MarkFuncArgs must follow it as it follows any other list)
+			switch r.st(it, 15) / 5 {
+			case 1:
+				r.w("...[" + n + "]")
+			case 2:
+				r.w("...{length:" + n + "}")
+			default:
+				r.w("..." + n)
+			}
 		} else {
 			r.w("[," + n + "]")
 		}
@@ -909,30 +917,6 @@ func c04PatternDefaultHazard(g []*c04Item, mod int) bool {
 	return len(g) > 1 && s%mod != 0 && !(mod == 4 && s%mod == 3)
 }
 
-// c04RestHazard: parseFuncParams returns before MarkFuncArgs when the list ends in a rest element,
-// so a function (not an arrow) with a rest parameter and default values elsewhere behaves
-// differently from the linearisation (known finding; rendered in oracle mode only)
-func c04RestHazard(l []*c04Item) bool {
-	_, gs := c04Groups(l)
-	if len(gs) == 0 {
-		return false
-	}
-	last := gs[len(gs)-1]
-	s := last[0].style
-	if s < 0 {
-		s = -s
-	}
-	if s%5 != 4 || len(last) > 1 {
-		return false
-	}
-	for _, g := range gs {
-		if len(g) > 1 {
-			return true
-		}
-	}
-	return false
-}
-
 func (r *c04Renderer) params(l []*c04Item, arrow bool) {
 	_, gs := c04Groups(l)
 	for i, g := range gs {
@@ -942,7 +926,7 @@ func (r *c04Renderer) params(l []*c04Item, arrow bool) {
 		if arrow && !r.oracle && c04PatternDefaultHazard(g, 5) {
 			r.w(c04JsName(g[0].x))
 		} else {
-			r.pattern(g[0], arrow || r.oracle || !c04RestHazard(l), i == len(gs)-1, len(g) > 1)
+			r.pattern(g[0], true, i == len(gs)-1, len(g) > 1)
 		}
 		if len(g) > 1 {
 			r.w("=")
